@@ -230,6 +230,30 @@ func (n *simNet) release() {
 	}
 }
 
+func (n *simNet) subsInFlight() int {
+	n.mu.Lock()
+	defer n.mu.Unlock()
+	return n.sent["announce_peer"] + n.sent["put"]
+}
+
+// releaseExcept answers the held queries whose method is not excluded.
+func (n *simNet) releaseExcept(excl func(q string) bool) {
+	n.mu.Lock()
+	var hs, keep []*heldQ
+	for _, h := range n.held {
+		if excl(h.q) {
+			keep = append(keep, h)
+		} else {
+			hs = append(hs, h)
+		}
+	}
+	n.held = keep
+	n.mu.Unlock()
+	for _, h := range hs {
+		n.inject(h)
+	}
+}
+
 // drain: answer what is held, answer new queries at once, let the parked senders time out.
 func (n *simNet) drain() {
 	n.mu.Lock()
